@@ -49,6 +49,7 @@ Inductive c08_case :=
 | QueueCase (evs : list qlabel) (served : list nat) (idle : nat)
 | WindowCase (w : Z) (frames : list Z) (credited : Z)
 | ShareCase (c : cause) (b_ok : bool)
+| HpackCase (ls : list hlabel) (decoded : list nat) (decode_ok : bool)
 | BackoffCase (ls : list blabel) (o_err : ocall) (o_seen : nat)
 (* retry layer: labels up to and including the injection; observed: the call's error and the
    number of attempts that reached the peer *)
@@ -344,6 +345,9 @@ Definition c08_check (k : c08_case) : bool :=
       | Some (_, cr, _) => Z.eqb cr credited
       | None => false
       end
+  | HpackCase ls decoded ok =>
+      let s := hrun false ls in
+      list_eqb Nat.eqb (h_sent s) decoded && ok
   | ShareCase c b_ok =>
       match shrun true shinit [SCancelA c; SDialFails; SBSees; SBDialOk] with
       | Some s => match s_b s with BRet None => b_ok | _ => negb b_ok end
